@@ -60,6 +60,45 @@ def handle (j : Json) : Except String Json := do
   | "run2d" =>
     let s ← J.fStr j "s"
     pure (resJ J.ofNat (parseRun2d s))
+  | "run2dfull" =>
+    -- the string as a list of code points (no dependence on JSON string escapes)
+    let cs := (← J.fNats j "cs").map Char.ofNat
+    let den : Json := match denoteRun2d cs with
+      | some (.int _) => Json.str "int"
+      | some (.nmp ..) => Json.str "nmp"
+      | none => Json.str "none"
+    pure (Json.mkObj [("r", resJ (fun r => if r.natAbs < 2^70 then J.ofInt r else Json.str "huge") (parseRun2dFull cs)), ("den", den),
+      ("canon", match parseRun2dFull cs with
+        | .ok r => Json.str (String.ofList (canonRun2d r))
+        | .error _ => Json.null)])
+  | "specstr" =>
+    let plate ← J.fInt j "plate"
+    let fiber ← J.fInt j "fiber"
+    let mjd ← J.fInt j "mjd"
+    let line ← J.fOpt J.int j "line"
+    let index ← J.fOpt J.int j "index"
+    let cs := (← J.fNats j "cs").map Char.ofNat
+    pure (resJ J.ofNat (packSpecStr plate fiber mjd cs line index))
+  | "cols" =>
+    -- rows of fixed-width columns: "types" = [[signed, width], ...] per column, "rows" = [[v, ...], ...]; "kind" objid | spec
+    let kind ← J.fStr j "kind"
+    let types ← J.list (J.list J.nat) (← J.fld j "types")
+    let rows ← J.list (J.list J.int) (← J.fld j "rows")
+    let mk (t : List Nat) (v : Int) : IntCol := ⟨t.headD 1 == 1, (t.drop 1).headD 64, BitVec.ofInt _ v⟩
+    let one (row : List Int) : Except String (Ids.R (BitVec 64)) :=
+      match kind, List.zipWith mk types row with
+      | "objid", [a, b, c, d, e, f, g] => pure (packObjidCols a b c d e f g)
+      | "spec", [a, b, c, d, e] => pure (packSpecCols a b c d e)
+      | _, _ => throw "cols: kind / column count"
+    let rs ← rows.mapM one
+    -- the array call refuses when any row does
+    pure (resJ (J.ofList (fun (b : BitVec 64) => J.ofNat b.toNat)) (rs.mapM id))
+  | "specs" =>
+    let fs ← J.list specF (← J.fld j "f")
+    pure (resJ (J.ofList J.ofNat) (packSpecs fs))
+  | "astrombad" =>
+    let rows ← J.list (J.list J.int) (← J.fld j "rows")
+    pure (J.ofList (fun (r : List Int) => Json.bool (okAstrombad (r.headD 0) ((r.drop 1).headD 0) ((r.drop 2).headD 0))) rows)
   | _ => throw s!"C06: unknown op {op}"
 
 end PydlVerif.Driver.C06
